@@ -28,9 +28,16 @@ ASSUMPTIONS = [
     'unbounded symbolic; start date/time symbolic within one year; hourly '
     'steps, times in hours as the CAMx format prescribes (the HHMM variant '
     'some tools write is outside)',
-    'only the uamiv (gridded average/emissions) pair of readers is encoded; '
-    'temperature/height_pressure/humidity/vertical_diffusivity/wind/one3d '
-    'record readers are not (see DESIGN)',
+    'encoded: the uamiv (gridded average/emissions) record reader and the '
+    'generic 3-D (one3d = humidity, vertical_diffusivity) record reader; '
+    'temperature/height_pressure/wind record readers are not (they mix the '
+    'record file with np.memmap on the file name, see DESIGN)',
+    'variable contents: FortranFileUtil.read_into is replaced by a stub '
+    'that fills the destination with the symbolic offset of the record the '
+    'reader positioned itself on, so each exposed cell is traced to the '
+    'record it came from; grids are concrete (incl. length-1 axes) there',
+    'one3d: times in HHMM as CAMx met files have them, steps of 1, 6, 12 '
+    '(and 24 thorough) hours, start day <= 300 of any year',
 ]
 
 MANIFEST = {
@@ -47,9 +54,14 @@ MANIFEST = {
             'sequence as the reference layout (= what the memmap reader '
             'derives from the file size), its time iteration terminates, and '
             'every (time, species, layer) seek lands on the byte offset the '
-            'layout prescribes.',
+            'layout prescribes; every cell of every variable comes from the '
+            'record of its (step, species, layer), also for EMISSIONS files '
+            'and grids with length-1 axes. Same for the generic 3-D met '
+            'record reader (layer and step discovery by scanning, nz<=3, '
+            'T<=6, 1/6/12-hourly).',
     'note': 'Trusted: z3, the reference layout, the struct-boundary oracle. '
-            'Other formats with two readers are not encoded (not claimed).',
+            'temperature, height_pressure and wind record readers are not '
+            'encoded (not claimed).',
 }
 
 
